@@ -103,8 +103,12 @@ class SamplerRun:
             kw['pool'] = pool
         outs = list(wl.get('output_names') or []) or None
         meth = wl['method']
-        if meth == 'rejection':
+        if meth == 'rejection' and wl.get('target_form') == 'node':
+            s = elfi.Rejection(model[spec['disc']], output_names=outs, **kw)
+        elif meth == 'rejection':
             s = elfi.Rejection(model, spec['disc'], output_names=outs, **kw)
+        elif meth == 'smc' and wl.get('target_form') == 'node':
+            s = elfi.SMC(model[spec['disc']], output_names=outs, **kw)
         elif meth == 'smc':
             s = elfi.SMC(model, spec['disc'], output_names=outs, **kw)
         elif meth == 'adsmc':
@@ -352,7 +356,12 @@ def gen_rejection_workload(tape, spec, pil, extra_outputs=True, allow_threshold=
                  if not extras_optional or tape.chance('want_extra', 1, 2)]
         if tape.chance('out_sim', 1, 4):
             outs.append('sim')
+    if tape.chance('duplicate_output', 1, 6):
+        # names given twice, parameters and the discrepancy named explicitly: legal, de-duplicated
+        outs.append(tape.choice('dup_output', outs + list(spec['params']) + [spec['disc']]))
     wl['output_names'] = outs
+    if tape.chance('target_is_node', 1, 4):
+        wl['target_form'] = 'node'      # Rejection(model['d'], ...) instead of (model, 'd', ...)
     modes = ['n_sim', 'quantile'] + (['threshold'] if allow_threshold and len(pil) >= 5 else [])
     mode = tape.choice('objective', modes)
     if mode == 'n_sim':
@@ -376,6 +385,8 @@ def gen_smc_workload(tape, spec, pil):
     wl = {'method': 'smc', 'batch_size': bs, 'seed': gen_seed(tape),
           'n_samples': n}
     wl['output_names'] = list(spec['sums']) if tape.chance('out_sums', 1, 2) else []
+    if tape.chance('target_is_node', 1, 4):
+        wl['target_form'] = 'node'
     rounds = tape.int('rounds', 2, 4)
     if tape.chance('smc_quantiles', 1, 2) or len(pil) < 10:
         qs = [tape.choice('q', [0.5, 0.3, 0.7, 0.2, 0.9]) for _ in range(rounds)]
